@@ -9,6 +9,7 @@
 #include <string.h>
 #include <stdarg.h>
 #include <signal.h>
+#include <dlfcn.h>
 #include <unistd.h>
 #include <sys/wait.h>
 #include <sys/time.h>
@@ -19,6 +20,7 @@ jmp_buf g_run_jmp;
 jmp_buf g_trap_jmp;
 volatile int g_trap_armed, g_aborted, g_inlib;
 const char *g_cur_ctx = "";
+unsigned g_cmp_mag;
 void (*g_abort_in_fiber)(int kind);
 void (*g_fiber_escape)(void);           /* switch back to the main context (memc) */
 int g_sched_trace[MAXSCHED];
@@ -336,6 +338,18 @@ static void install_handlers(void)
 #if SIM_ASAN || defined(SIM_TSAN)
     __sanitizer_set_death_callback(on_san_death);
 #endif
+#if SIM_ASAN
+    {
+        /* gcc links libasan and libubsan as two runtimes, each with its own copy of the death callback:
+         * the unqualified call above reaches libasan's, this one libubsan's (without it a UBSan report
+         * ends the worker with no CRASH line and the driver cannot attribute it) */
+        void *h = dlopen("libubsan.so.1", RTLD_NOLOAD | RTLD_NOW);
+        if (h) {
+            void (*f)(void (*)(void)) = (void (*)(void (*)(void)))dlsym(h, "__sanitizer_set_death_callback");
+            if (f) f(on_san_death);
+        }
+    }
+#endif
 }
 
 static void arm_watchdog(int seconds)
@@ -519,6 +533,7 @@ static void run_plan(const world_t *w, const plan_t *p, long long index, int tra
     g_run.evhash = 0xcbf29ce484222325ull;
     g_run.step = -1;
     g_cur_prop = "C00"; g_cur_ctx = "";
+    { uint64_t h = 0; int q; for (q = 0; q < NCFG; q++) h = fnv1a(h, p->cfg[q]); g_cmp_mag = (h >> 17) % 8 < 4 ? 0 : (unsigned)((h >> 17) % 4); }
     g_inlib = 0; g_trap_armed = 0; g_aborted = 0;
     arm_watchdog(20);
     if (_setjmp(g_run_jmp) == 0) {
